@@ -5,6 +5,7 @@ package c19
 import (
 	"bytes"
 	"fmt"
+	"reflect"
 	"strings"
 	"testing"
 
@@ -34,7 +35,111 @@ type Op struct {
 type Case struct {
 	Initial []string `json:"initial"`
 	Ops     []Op     `json:"ops"`
-	Point   int      `json:"point"` // where the list is rendered: 0 GenDecl.Start, 1 GenDecl.End (line), 2 Ident.End, 3 File.Start
+	Point   int      `json:"point"` // where the list is rendered: 0 GenDecl.Start, 1 GenDecl.End (line), 2 Ident.End, 3 File.Start, 4 any list of any node of renderSrc
+	Node    int      `json:"node"`  // with Point 4: node ordinal (dst.Inspect order, modulo)
+	Field   int      `json:"field"` // with Point 4: ordinal of the list among the node's Decs fields (modulo)
+}
+
+// renderSrc has no comments of its own and contains every statement, declaration and expression
+// form, including the ones with optional parts absent (value-less range, bare return, ...).
+const renderSrc = `package p
+
+import (
+	"fmt"
+	q "os"
+)
+
+type T[P any, Q interface{ ~int | string }] struct {
+	A, B int ` + "`tag`" + `
+	P
+}
+
+type I interface {
+	M(a int, b ...string) (x, y error)
+	fmt.Stringer
+}
+
+type A = []map[string]chan<- func(*T[int, int]) [3]I
+
+const c, d = iota, 1 << 2
+
+var v = [...]T[int, int]{1: {A: 1}, {}}
+
+func (t *T[P, Q]) m(a, b P, fs ...func()) (r int, err error) {
+	for range a {
+	}
+	for k := range b {
+		_ = k
+	}
+	for k, x := range fs {
+		_, _ = k, x
+	}
+	for i := 0; i < 3; i++ {
+		continue
+	}
+	for {
+		break
+	}
+L:
+	for a != nil {
+		goto L
+	}
+	if x := f(); x {
+	} else if y {
+	} else {
+	}
+	switch {
+	}
+	switch x := y.(type) {
+	case int, string:
+	default:
+	}
+	switch y := 1; y {
+	case 1:
+		fallthrough
+	default:
+	}
+	select {
+	case <-ch:
+	case x := <-ch:
+	case ch <- 1:
+	default:
+	}
+	go f()
+	defer func() {}()
+	x++
+	x += y[1:2:3] + z[:] + (*p).q.(int) + -w + g[int](1, xs...)
+	var _ = struct{}{}
+	;
+	{
+	}
+	return
+	return 1, q.ErrNotExist
+}
+
+func decl()
+`
+
+// decsLists returns the decoration lists of a node in declaration order of its Decs struct.
+func decsLists(n dst.Node) []*dst.Decorations {
+	v := reflect.ValueOf(n).Elem().FieldByName("Decs")
+	if !v.IsValid() {
+		return nil
+	}
+	var out []*dst.Decorations
+	var walk func(v reflect.Value)
+	walk = func(v reflect.Value) {
+		for i := 0; i < v.NumField(); i++ {
+			f := v.Field(i)
+			if d, ok := f.Addr().Interface().(*dst.Decorations); ok {
+				out = append(out, d)
+			} else if f.Kind() == reflect.Struct {
+				walk(f) // the embedded NodeDecs
+			}
+		}
+	}
+	walk(v)
+	return out
 }
 
 func eq(a, b []string) bool {
@@ -147,8 +252,26 @@ func check(t h.TB, c Case) {
 	if err != nil {
 		t.Fatalf("harness: %v", err)
 	}
+	if c.Point == 4 {
+		f, err = decorator.Parse(renderSrc)
+		if err != nil {
+			t.Fatalf("harness: %v", err)
+		}
+		var nodes []dst.Node
+		dst.Inspect(f, func(n dst.Node) bool {
+			if n != nil && len(decsLists(n)) > 0 {
+				nodes = append(nodes, n)
+			}
+			return true
+		})
+		n := nodes[c.Node%len(nodes)]
+		lists := decsLists(n)
+		*lists[c.Field%len(lists)] = d
+		h.LabelN("render:"+strings.TrimPrefix(fmt.Sprintf("%T", n), "*dst."), 1)
+	}
 	gd := f.Decls[0].(*dst.GenDecl)
 	switch c.Point {
+	case 4:
 	case 0:
 		gd.Decs.Start = d
 	case 1:
@@ -160,6 +283,16 @@ func check(t h.TB, c Case) {
 	}
 	var buf bytes.Buffer
 	h.Guard(t, sub, c, func() { err = decorator.Fprint(&buf, f) })
+	if err != nil && c.Point == 4 {
+		// format.Node re-parses a file with an import group; a line break at an arbitrary point
+		// ("q <newline> \"os\"", "a <newline> int") is a semicolon there: the caller's mistake, not dst's
+		for _, s := range d.All() {
+			if s == "\n" || strings.HasPrefix(s, "//") {
+				h.Exclude("line break where the grammar does not allow one")
+				return
+			}
+		}
+	}
 	if err != nil {
 		h.Fail(t, sub, c, "Fprint: %v", err)
 	}
@@ -174,7 +307,7 @@ func check(t h.TB, c Case) {
 		}
 	}
 	if diff := oracle.DiffStrings(want, got); diff != "" {
-		h.Fail(t, sub, c, "rendered comments differ from All(): %s\n%s", diff, buf.Bytes())
+		h.Fail(t, sub, c, "rendered comments differ from All() (point %d): %s\n%s", c.Point, diff, buf.Bytes())
 	}
 }
 
@@ -200,7 +333,12 @@ func genCase(t *rapid.T) (Case, bool) {
 		}
 		return out
 	}
-	c := Case{Point: rapid.IntRange(0, 3).Draw(t, "point")}
+	c := Case{Point: rapid.IntRange(0, 7).Draw(t, "point")}
+	if c.Point >= 4 {
+		c.Point = 4
+		c.Node = rapid.IntRange(0, 399).Draw(t, "node")
+		c.Field = rapid.IntRange(0, 11).Draw(t, "field")
+	}
 	if rapid.Bool().Draw(t, "init") {
 		c.Initial = vals(0, 3)
 	}
